@@ -1,5 +1,15 @@
-(* C04 — parse result is independent of read chunking, buffer capacity and EOF pauses.  Statements only. *)
-From Ebml Require Import Base Tools Spec Reader Pure Proofs.Tactics Proofs.ReaderIO Proofs.Refine.
+(* C04 — parse result is independent of read chunking, buffer capacity and EOF pauses.  Statements only.
+   Part 1 (C04_refines .. C04_ex): sources that never report Ok(0) before the end — any chunking, any capacity.
+   Part 2 (the C04_pause theorems): with end-of-stream closing disabled, sources that report a temporary end of file (Ok(0),
+   then more data later) at tag boundaries: the call that meets the pause yields None and leaves the reader as it was;
+   draining again after each None yields the items of the slice run, segment by segment (Proofs/Pauses.v).  A pause is "met
+   at a tag boundary" when the read() that returns Ok(0) is the probe of read_tag_checked: the window and the queue are empty
+   and no open master is exhausted.
+   Part 3 (C04_step_lookahead_refines .. C04_lookahead_ex, for c_buffered = []): an Ok(0) met by the 16-byte look-ahead of
+   the header peek (or the 8-byte one of the id peek) is not reported by the reader at all; it is harmless when the tag being
+   read is already complete in the buffer — which is what a source that pauses at tag boundaries produces for tags shorter
+   than the look-ahead (Proofs/PausesLookahead.v).  A pause met while a payload is being read gives UnexpectedEof. *)
+From Ebml Require Import Base Tools Spec Reader Pure Proofs.Tactics Proofs.ReaderIO Proofs.Refine Proofs.Termination Proofs.Pauses Proofs.PausesLookahead.
 
 (* For every configuration (tolerances, size limit, buffered set, EOF closing), every input, every initial capacity
    (0 included) and every read script in which the source never reports Ok(0) before the end and never fails — any split of
@@ -40,3 +50,190 @@ Example C04_ex :
     [OItem (TStart 129) 0; OItem (TStart 16643) 2; OItem (TElem 16641 (VU 5)) 5; OItem (TElem 16642 (VB [1; 2])) 9;
      OItem (TEnd 16643) 2; OItem (TEnd 129) 0; ONone].
 Proof. split; [repeat constructor|]. vm_compute. split; reflexivity. Qed.
+
+(* ------------------------------------------------------------------ temporary end of file at tag boundaries *)
+(* the step: a Pause met with an empty window, an empty queue and no exhausted master, end-of-stream closing disabled —
+   next() returns None; the state is unchanged but for the consumed script entry (and a zero capacity grown to 1) *)
+Theorem C04_pause_boundary_noop : forall c st s,
+  c_emit_eof c = false ->
+  r_script st = Pause :: s -> r_wlen st = 0 -> r_queue st = [] -> exhausted_count (r_off st) (r_stack st) = O ->
+  (1 <= r_fuel st)%nat ->
+  next c st = (after_pause st s, NNone).
+Proof. exact pause_boundary_noop. Qed.
+Theorem C04_pause_state : forall st s, WF st ->
+  WF (after_pause st s) /\ Abs (after_pause st s) = Abs st /\ r_script (after_pause st s) = s /\
+  r_bad (after_pause st s) = r_bad st /\ r_fuel (after_pause st s) = r_fuel st /\ r_cap (after_pause st s) = N.max (r_cap st) 1.
+Proof. exact after_pause_facts. Qed.
+
+(* a call that consumes no Pause of the script (same number of Pause entries before and after) refines the abstract reader,
+   whatever the script holds further on: scripts of Chunk n (n > 0) and Pause entries *)
+Theorem C04_step_nopause_refines : forall c st, GoodP st -> np (fst (next c st)) = np st ->
+  GoodP (fst (next c st)) /\ Abs (fst (next c st)) = fst (p_next c (Abs st)) /\ snd (next c st) = snd (p_next c (Abs st)).
+Proof. exact next_refines_nopause. Qed.
+
+(* one pause.  [steps c st a st']: successive next() calls from st yield the items a and lead to st'.  If the run on the
+   script s1 ++ Pause :: s2 (s1, s2 calm) meets the Pause at a tag boundary after the items a, then a is a prefix of the
+   slice run, and draining twice gives the slice run with one None inserted after a *)
+Theorem C04_pause_run_one : forall c cap0 s1 s2 input a stp,
+  c_emit_eof c = false -> calm s1 -> calm s2 ->
+  steps c (r_init cap0 (s1 ++ Pause :: s2) input) a stp ->
+  r_script stp = Pause :: s2 -> r_wlen stp = 0 -> r_queue stp = [] -> exhausted_count (r_off stp) (r_stack stp) = O ->
+  ~ In OLimit (p_run c input [RAll]) ->
+  exists b, b <> [] /\
+    p_run c input [RAll] = a ++ b /\
+    run_reader c cap0 (s1 ++ Pause :: s2) input [RAll; RAll] = a ++ [ONone] ++ b.
+Proof. exact pause_one. Qed.
+
+(* any number of pauses, each met at a tag boundary ([paused_run], Proofs/Pauses.v: the segments between them consume only
+   the calm script part before the next Pause): m + 1 drains give the slice run with a None after each of the m segments *)
+Theorem C04_pause_run_many : forall c cap0 script input segs st',
+  c_emit_eof c = false ->
+  paused_run c (r_init cap0 script input) segs st' -> calm (r_script st') ->
+  ~ In OLimit (p_run c input [RAll]) ->
+  exists b, b <> [] /\
+    p_run c input [RAll] = concat segs ++ b /\
+    run_reader c cap0 script input (repeat RAll (S (length segs))) = concat (map (fun a => a ++ [ONone]) segs) ++ b.
+Proof. exact pauses_many. Qed.
+(* the call bound is not reached on well-formed bytes for specifications of moderate depth (C05) *)
+Theorem C04_pause_run_many_wf : forall c cap0 script input segs st',
+  c_emit_eof c = false -> wf_bytes input -> (slack c < 2 * length input + 64)%nat ->
+  paused_run c (r_init cap0 script input) segs st' -> calm (r_script st') ->
+  exists b, b <> [] /\
+    p_run c input [RAll] = concat segs ++ b /\
+    run_reader c cap0 script input (repeat RAll (S (length segs))) = concat (map (fun a => a ++ [ONone]) segs) ++ b.
+Proof. exact pauses_many_wf. Qed.
+
+(* non-vacuity: a two-level document (60 bytes: two masters, three binary elements of 16, 16 and 23 bytes); the source
+   delivers 21 bytes (up to the end of the first element), pauses, delivers the second element, pauses, delivers the rest *)
+Module PauseEx.
+Definition sp := [ {| e_id := 129; e_ty := DMaster; e_path := [] |}; {| e_id := 16643; e_ty := DMaster; e_path := [PId 129] |};
+                   {| e_id := 16641; e_ty := DUInt; e_path := [PId 129; PId 16643] |};
+                   {| e_id := 16642; e_ty := DBinary; e_path := [PId 129; PId 16643] |} ].
+Definition c := {| c_sp := sp; c_allow_id := false; c_allow_hier := false; c_allow_over := false; c_max := Some 4000000000;
+                   c_buffered := []; c_emit_eof := false |}.
+Definition doc := [129; 186; 65; 3; 183;
+                   65; 2; 141; 1; 2; 3; 4; 5; 6; 7; 8; 9; 10; 11; 12; 13;
+                   65; 2; 141; 1; 2; 3; 4; 5; 6; 7; 8; 9; 10; 11; 12; 13;
+                   65; 2; 148; 1; 2; 3; 4; 5; 6; 7; 8; 9; 10; 11; 12; 13; 14; 15; 16; 17; 18; 19; 20].
+Definition script := [Chunk 21; Pause; Chunk 16; Pause; Chunk 23].
+Definition el13 := TElem 16642 (VB [1; 2; 3; 4; 5; 6; 7; 8; 9; 10; 11; 12; 13]).
+Definition el20 := TElem 16642 (VB [1; 2; 3; 4; 5; 6; 7; 8; 9; 10; 11; 12; 13; 14; 15; 16; 17; 18; 19; 20]).
+Definition seg1 := [OItem (TStart 129) 0; OItem (TStart 16643) 2; OItem el13 5].
+Definition seg2 := [OItem el13 21].
+Definition tail := [OItem el20 37; OItem (TEnd 16643) 2; OItem (TEnd 129) 0; ONone].
+End PauseEx.
+
+(* the paused run next to the unpaused one *)
+Example C04_pause_ex :
+  run_reader PauseEx.c 65536 [] PauseEx.doc [RAll] = PauseEx.seg1 ++ PauseEx.seg2 ++ PauseEx.tail /\
+  run_reader PauseEx.c 65536 PauseEx.script PauseEx.doc [RAll; RAll; RAll] =
+    PauseEx.seg1 ++ [ONone] ++ PauseEx.seg2 ++ [ONone] ++ PauseEx.tail.
+Proof. vm_compute. split; reflexivity. Qed.
+
+(* the hypotheses of C04_pause_run_many hold for it *)
+Example C04_pause_ex_hyp : exists st',
+  paused_run PauseEx.c (r_init 65536 PauseEx.script PauseEx.doc) [PauseEx.seg1; PauseEx.seg2] st' /\ calm (r_script st') /\
+  ~ In OLimit (p_run PauseEx.c PauseEx.doc [RAll]).
+Proof.
+  eexists. split; [|split].
+  - match goal with |- paused_run ?c ?st _ _ => let st' := eval vm_compute in st in change st with st' end.
+    eapply (pr_seg PauseEx.c _ [Chunk 21] [Chunk 16; Pause; Chunk 23]); [reflexivity|repeat constructor| | | | | | ].
+    + unfold PauseEx.seg1. do 3 (eapply steps_cons; [vm_compute; reflexivity|reflexivity|]). apply steps_nil.
+    + reflexivity.
+    + reflexivity.
+    + reflexivity.
+    + reflexivity.
+    + match goal with |- paused_run ?c ?st _ _ => let st' := eval vm_compute in st in change st with st' end.
+      eapply (pr_seg PauseEx.c _ [Chunk 16] [Chunk 23]); [reflexivity|repeat constructor| | | | | | ].
+      * unfold PauseEx.seg2. eapply steps_cons; [vm_compute; reflexivity|reflexivity|]. apply steps_nil.
+      * reflexivity.
+      * reflexivity.
+      * reflexivity.
+      * reflexivity.
+      * match goal with |- paused_run ?c ?st _ _ => let st' := eval vm_compute in st in change st with st' end. apply pr_done.
+  - cbn. repeat constructor.
+  - vm_compute. intuition discriminate.
+Qed.
+
+(* why tag boundaries: a pause inside the payload of the third element (16 of its 23 bytes delivered) is reported as
+   UnexpectedEof; and the same script read into a zero-capacity buffer meets both pauses in the look-ahead of a header peek,
+   where they are swallowed (no None before the end) *)
+Example C04_pause_inside_ex :
+  run_reader PauseEx.c 65536 [Chunk 21; Chunk 16; Chunk 16; Pause; Chunk 7] PauseEx.doc [RAll] =
+    PauseEx.seg1 ++ PauseEx.seg2 ++ [OErr (REof 37 (Some 16642) (Some 20) (Some [1; 2; 3; 4; 5; 6; 7; 8; 9; 10; 11; 12; 13]))] /\
+  run_reader PauseEx.c 0 PauseEx.script PauseEx.doc [RAll; RAll; RAll] =
+    PauseEx.seg1 ++ PauseEx.seg2 ++ PauseEx.tail ++ [ONone; ONone].
+Proof. vm_compute. split; reflexivity. Qed.
+
+(* ------------------------------------------------------------------ pauses swallowed by the look-ahead *)
+(* [lookahead_ok c st]: in the state in which this call starts read_tag (after the probe, if the window was empty) the
+   abstract reader reads a tag without error, and that tag ends inside the buffer window.  Such a call refines the abstract
+   reader whatever its look-ahead reads meet (Pause entries included) *)
+Theorem C04_step_lookahead_refines : forall c st, c_buffered c = [] -> GoodP st -> wf_bytes (total st) ->
+  r_queue st = [] -> (1 <= r_fuel st)%nat -> lookahead_ok c st ->
+  GoodP (fst (next c st)) /\ Abs (fst (next c st)) = fst (p_next c (Abs st)) /\ snd (next c st) = snd (p_next c (Abs st)).
+Proof. exact next_refines_lookahead. Qed.
+
+(* runs over any script of Chunk n (n > 0) and Pause entries.  [step_ok c st]: the call consumes no Pause, or
+   [lookahead_ok]; [stepsL]: item-yielding calls that are all [step_ok]; [drainL]: all calls of a drain, the last one
+   included, are [step_ok]; [paused_runL c st segs]: segments of [stepsL] calls, each ending in a state that meets a Pause
+   at a tag boundary, then a [drainL] drain.  The result is the slice run with one None per boundary pause *)
+Theorem C04_pause_run_lookahead : forall c cap0 script input segs,
+  c_emit_eof c = false -> c_buffered c = [] -> wf_bytes input -> calmP script ->
+  paused_runL c (r_init cap0 script input) segs ->
+  ~ In OLimit (p_run c input [RAll]) ->
+  exists b, b <> [] /\
+    p_run c input [RAll] = concat segs ++ b /\
+    run_reader c cap0 script input (repeat RAll (S (length segs))) = concat (map (fun a => a ++ [ONone]) segs) ++ b.
+Proof. exact pauses_lookahead. Qed.
+
+(* no boundary pause at all (any end-of-stream setting): the run is the slice run *)
+Theorem C04_pause_swallowed : forall c cap0 script input,
+  c_buffered c = [] -> wf_bytes input -> calmP script -> drainL c (r_init cap0 script input) ->
+  run_reader c cap0 script input [RAll] = p_run c input [RAll].
+Proof. exact pauses_swallowed. Qed.
+
+(* non-vacuity: the 14-byte document of C04_ex (tags of 2, 3, 4 and 5 bytes); the source delivers the two master headers
+   (5 bytes), then answers Ok(0) to the next five reads, then delivers the rest.  Four of the pauses are swallowed by the
+   look-ahead while the two headers are parsed from the buffer; the fifth is met at the tag boundary *)
+Module PauseEx2.
+Definition c := {| c_sp := PauseEx.sp; c_allow_id := false; c_allow_hier := false; c_allow_over := false; c_max := Some 4000000000;
+                   c_buffered := []; c_emit_eof := false |}.
+Definition doc := [129; 140; 65; 3; 137; 65; 1; 129; 5; 65; 2; 130; 1; 2].
+Definition script := [Chunk 5; Pause; Pause; Pause; Pause; Pause; Chunk 9].
+Definition seg1 := [OItem (TStart 129) 0; OItem (TStart 16643) 2].
+Definition tail := [OItem (TElem 16641 (VU 5)) 5; OItem (TElem 16642 (VB [1; 2])) 9; OItem (TEnd 16643) 2; OItem (TEnd 129) 0; ONone].
+End PauseEx2.
+
+Example C04_lookahead_ex :
+  run_reader PauseEx2.c 65536 [] PauseEx2.doc [RAll] = PauseEx2.seg1 ++ PauseEx2.tail /\
+  run_reader PauseEx2.c 65536 PauseEx2.script PauseEx2.doc [RAll; RAll] = PauseEx2.seg1 ++ [ONone] ++ PauseEx2.tail /\
+  (* four pauses: all swallowed *)
+  run_reader PauseEx2.c 65536 [Chunk 5; Pause; Pause; Pause; Pause; Chunk 9] PauseEx2.doc [RAll] = PauseEx2.seg1 ++ PauseEx2.tail.
+Proof. vm_compute. repeat split; reflexivity. Qed.
+
+Local Ltac la_ok := right; split; [reflexivity|]; unfold lookahead_ok; vm_compute; split; [discriminate|];
+                    eexists; eexists; split; [reflexivity|discriminate].
+Local Ltac np_ok := left; vm_compute; reflexivity.
+Local Ltac ok := first [np_ok | la_ok].
+
+Example C04_lookahead_ex_hyp :
+  wf_bytes PauseEx2.doc /\ calmP PauseEx2.script /\
+  paused_runL PauseEx2.c (r_init 65536 PauseEx2.script PauseEx2.doc) [PauseEx2.seg1] /\
+  drainL PauseEx2.c (r_init 65536 [Chunk 5; Pause; Pause; Pause; Pause; Chunk 9] PauseEx2.doc).
+Proof.
+  split; [repeat constructor|]. split; [repeat constructor|]. split.
+  - match goal with |- paused_runL ?c ?st _ => let st' := eval vm_compute in st in change st with st' end.
+    eapply (prL_seg PauseEx2.c _ [Chunk 9]).
+    + unfold PauseEx2.seg1. do 2 (eapply stepsL_cons; [vm_compute; reflexivity|reflexivity|ok|]). apply stepsL_nil.
+    + reflexivity.
+    + reflexivity.
+    + reflexivity.
+    + reflexivity.
+    + match goal with |- paused_runL ?c ?st _ => let st' := eval vm_compute in st in change st with st' end.
+      apply prL_done. do 4 (eapply drainL_item; [ok|vm_compute; reflexivity|reflexivity|]).
+      apply drainL_end; [ok|right; intros t off; vm_compute; discriminate].
+  - match goal with |- drainL ?c ?st => let st' := eval vm_compute in st in change st with st' end.
+    do 6 (eapply drainL_item; [ok|vm_compute; reflexivity|reflexivity|]).
+    apply drainL_end; [ok|right; intros t off; vm_compute; discriminate].
+Qed.
